@@ -1,6 +1,7 @@
 package otto
 
 import (
+	"math"
 	"reflect"
 	"strconv"
 )
@@ -120,7 +121,17 @@ func goSliceEnumerate(obj *object, all bool, each func(string) bool) {
 }
 
 func goSliceDefineOwnProperty(obj *object, name string, descriptor property, throw bool) bool {
+	if _, isData := descriptor.value.(Value); !isData && (name == propertyLength || stringToArrayIndex(name) >= 0) {
+		// Elements and length live in the Go slice: they cannot become accessors
+		// and a descriptor without a value has nothing to store.
+		return obj.runtime.typeErrorResult(throw)
+	}
 	if name == propertyLength {
+		// A slice length has the range of a JavaScript array length (15.4.5.1):
+		// anything else is a RangeError, not a reflect panic or a 32 GB slice.
+		if length := descriptor.value.(Value).number(); length.kind != numberInteger || length.int64 < 0 || length.int64 > math.MaxUint32 {
+			panic(obj.runtime.panicRangeError("Invalid array length"))
+		}
 		obj.value.(*goSliceObject).setLength(descriptor.value.(Value))
 		return true
 	} else if index := stringToArrayIndex(name); index >= 0 {
